@@ -106,27 +106,51 @@ def intOk : List Char → Bool
   | ['0'] => true
   | c :: _ => c != '0'
 
+/-- is `e` / `E` -/
+def isE (c : Char) : Bool := c == 'e' || c == 'E'
+
+/-- the digits of an exponent after its optional sign -/
+def expBody : List Char → List Char
+  | '+' :: u => u
+  | '-' :: u => u
+  | u => u
+
+def expNeg : List Char → Bool
+  | '-' :: _ => true
+  | _ => false
+
 /-- `[ exp ]` up to the end of the lexeme: `exp = e [ minus / plus ] 1*DIGIT` -/
 def expOk : List Char → Bool
   | [] => true
-  | c :: t => (c == 'e' || c == 'E') &&
-      (match t with
-       | '+' :: u => digitsNE u
-       | '-' :: u => digitsNE u
-       | u => digitsNE u)
+  | c :: t => isE c && digitsNE (expBody t)
+
+def hasDot : List Char → Bool
+  | '.' :: _ => true
+  | _ => false
+
+/-- the digits after a leading decimal point (`[]` if there is no decimal point) -/
+def fracDigits : List Char → List Char
+  | '.' :: t => t.takeWhile isDigit
+  | _ => []
+
+/-- what follows `[ . digits ]` -/
+def afterFrac : List Char → List Char
+  | '.' :: t => t.dropWhile isDigit
+  | r => r
 
 /-- `[ frac ] [ exp ]` up to the end of the lexeme: `frac = decimal-point 1*DIGIT` -/
-def fracExpOk : List Char → Bool
-  | '.' :: t => !(t.takeWhile isDigit).isEmpty && expOk (t.dropWhile isDigit)
-  | r => expOk r
+def fracExpOk (r : List Char) : Bool :=
+  (!hasDot r || !(fracDigits r).isEmpty) && expOk (afterFrac r)
 
 def unsignedOk (r : List Char) : Bool :=
   intOk (r.takeWhile isDigit) && fracExpOk (r.dropWhile isDigit)
 
+def stripMinus : List Char → List Char
+  | '-' :: r => r
+  | r => r
+
 /-- `number = [ minus ] int [ frac ] [ exp ]` -/
-def isJsonNumber : List Char → Bool
-  | '-' :: r => unsignedOk r
-  | r => unsignedOk r
+def isJsonNumber (s : List Char) : Bool := unsignedOk (stripMinus s)
 
 def isHex (c : Char) : Bool :=
   isDigit c || ('a' ≤ c && c ≤ 'f') || ('A' ≤ c && c ≤ 'F')
@@ -183,11 +207,9 @@ def digitsVal (ds : List Char) : Nat := ds.foldl (fun a c => a * 10 + (c.toNat -
 /-- value of `[ exp ]` up to the end of the lexeme (`ε ↦ 0`) -/
 def expVal : List Char → Option Int
   | [] => some 0
-  | c :: t => if c == 'e' || c == 'E' then
-      (match t with
-       | '+' :: u => if digitsNE u then some (digitsVal u : Int) else none
-       | '-' :: u => if digitsNE u then some (-(digitsVal u : Int)) else none
-       | u => if digitsNE u then some (digitsVal u : Int) else none)
+  | c :: t =>
+    if isE c && digitsNE (expBody t) then
+      some (if expNeg t then -(digitsVal (expBody t) : Int) else (digitsVal (expBody t) : Int))
     else none
 
 def pow10 (e : Int) : Rat :=
@@ -196,20 +218,25 @@ def pow10 (e : Int) : Rat :=
 /-- value of `digits [ . digits ] [ exp ]` or `. digits [ exp ]` -/
 def unsignedVal (r : List Char) : Option Rat :=
   let ip := r.takeWhile isDigit
-  let r1 := r.dropWhile isDigit
-  let fp := match r1 with | '.' :: t => t.takeWhile isDigit | _ => []
-  let r2 := match r1 with | '.' :: t => t.dropWhile isDigit | _ => r1
+  let fp := fracDigits (r.dropWhile isDigit)
   if ip.isEmpty && fp.isEmpty then none else
-  match expVal r2 with
+  match expVal (afterFrac (r.dropWhile isDigit)) with
   | some e => some ((digitsVal (ip ++ fp) : Rat) * pow10 (e - fp.length))
   | none => none
 
+def isNeg : List Char → Bool
+  | '-' :: _ => true
+  | _ => false
+
+def stripSign : List Char → List Char
+  | '-' :: r => r
+  | '+' :: r => r
+  | r => r
+
 /-- rational value of a number lexeme; defined on `[+-]? (d+ (. d*)? | . d+) ([eE] [+-]? d+)?`,
     a superset of the JSON grammar and of the minifier's output grammar -/
-def numVal : List Char → Option Rat
-  | '-' :: r => (unsignedVal r).map (fun q => -q)
-  | '+' :: r => unsignedVal r
-  | r => unsignedVal r
+def numVal (s : List Char) : Option Rat :=
+  (unsignedVal (stripSign s)).map (fun q => if isNeg s then -q else q)
 
 /-- both lexemes have a value and the values are equal -/
 def numEq (a b : List Char) : Bool :=
